@@ -60,6 +60,11 @@ _PORDER = [rps.NEW, rps.PMGR_LAUNCHING_PENDING, rps.PMGR_LAUNCHING,
            rps.PMGR_ACTIVE_PENDING, rps.PMGR_ACTIVE, rps.DONE]
 
 
+# the documented final states, by name: the oracle must not read the
+# repository's (mutable) `rps.FINAL` list, which the code under test can change
+_FINAL = (rps.DONE, rps.FAILED, rps.CANCELED)
+
+
 class Hang(BaseException):
     pass
 
@@ -155,7 +160,7 @@ def run_case(case, res):
     kind  = 'task' if api in ('task', 'tmgr') else 'pilot'
     V     = _TV if kind == 'task' else _PV
     req   = case['requested']
-    rlist = list(rps.FINAL) if req is None else \
+    rlist = list(_FINAL) if req is None else \
             (list(req) if isinstance(req, list) else [req])
     rmin  = min(V[s] for s in rlist)
 
@@ -182,7 +187,7 @@ def run_case(case, res):
     else                           : awaited = uids
     if api == 'pmgr' and case['select'] == 'all':
         # documented: `uids=None` means all pilots not yet final at call time
-        awaited = [u for u in uids if objs[u].state not in rps.FINAL]
+        awaited = [u for u in uids if objs[u].state not in _FINAL]
 
     pending = sorted([(t, e['uid'], s) for e in case['entities']
                                        for t, s in e['events'] if t >= 0])
@@ -193,7 +198,7 @@ def run_case(case, res):
 
     def visible(uid):
         s = objs[uid].state
-        return s in rlist or s in rps.FINAL
+        return s in rlist or s in _FINAL
 
     def evaluate(poll):
         for u in awaited:
@@ -254,7 +259,7 @@ def run_case(case, res):
 
     if outcome == 'hang':
         what = 'default' if req is None else \
-               'other-final' if any(objs[u].state in rps.FINAL and
+               'other-final' if any(objs[u].state in _FINAL and
                                     objs[u].state not in rlist
                                     for u in awaited) else 'requested'
         res.violation('no-return/%s/%s' % (api, what),
@@ -301,7 +306,7 @@ def run_case(case, res):
     if not timed_out:
         for u in awaited:
             s = objs[u].state
-            if s not in rps.FINAL and V[s] < rmin:
+            if s not in _FINAL and V[s] < rmin:
                 res.violation('early-return/%s' % api,
                               '%s returned at poll %d while %s is %s'
                               % (label, clk.polls, u, s), ctx)
